@@ -227,4 +227,19 @@ theorem C02_owned_as_view (t : TD α) (h : t.Inv) :
     t.asView.Inv t.data.length ∧ ∀ c r, t.asView.pos c r = t.pos c r :=
   TD.asView_inv t h
 
+/-- non-vacuity: a concrete 3-column, 2-row array has the invariant; its cell `(2,1)` is position `1*3+2 = 5`
+    (`C02_owned_valid` applied to it) and the coordinate `(3,0)` panics (`C02_owned_invalid`) -/
+example : TD.indexCoord .release (⟨[1, 2, 3, 4, 5, 6], 2, 3⟩ : TD Nat) 2 1 = .ok 5 :=
+  (C02_owned_valid .release _ ⟨rfl, by decide, by decide⟩ 2 1 (by decide) (by decide)).2.1
+example : TD.indexCoord .release (⟨[1, 2, 3, 4, 5, 6], 2, 3⟩ : TD Nat) 3 0 = .error .panic :=
+  (C02_owned_invalid .release _ ⟨rfl, by decide, by decide⟩ 3 0 (by decide) (by decide) (by decide)).1
+/-- non-vacuity: a 2x2 window (stride 3, offset 1) of an 8-cell buffer has the view invariant; its cell `(1,1)` is root
+    position `1 + 1*3 + 1 = 5`, also through `col(1)[1]` (concrete computations); `(2,0)` panics (`C02_view_invalid`) -/
+example : (⟨⟨1, 5⟩, 2, 2, 3⟩ : VW).Inv 8 ∧ VW.indexCoord .debug ⟨⟨1, 5⟩, 2, 2, 3⟩ 1 1 = .ok 5 ∧
+    (VW.col .debug ⟨⟨1, 5⟩, 2, 2, 3⟩ 1 >>= fun it => it.index .debug 1) = .ok 5 :=
+  ⟨⟨by decide, by decide, by decide, by decide, by decide, by decide⟩, by rfl, by rfl⟩
+example : VW.indexCoord .release ⟨⟨1, 5⟩, 2, 2, 3⟩ 2 0 = .error .panic :=
+  (C02_view_invalid .release _ 8 ⟨by decide, by decide, by decide, by decide, by decide, by decide⟩ 2 0
+    (by decide) (by decide) (by decide)).1
+
 end Toodee
